@@ -181,6 +181,10 @@ func (in *Interp) invoke(fnv Value, args []Value, cc *ssa.CallCommon, instr ssa.
 	if f.B != nil {
 		return in.builtin(f.B, args, cc)
 	}
+	if f.CancelCh != 0 {
+		in.chanState(ChanV{Obj: f.CancelCh}).closed = true
+		return nil
+	}
 	if f.Noop {
 		return nil
 	}
@@ -955,11 +959,18 @@ func (in *Interp) spawn(fr *frame, cc *ssa.CallCommon) {
 	} else if cc.IsInvoke() {
 		name = cc.Method.Name()
 	}
-	switch in.Cfg.GoPolicy {
+	policy := in.Cfg.GoPolicy
+	for _, r := range in.Cfg.GoRules {
+		if strings.Contains(name, r[0]) {
+			policy = r[1]
+			break
+		}
+	}
+	switch policy {
 	case "inline":
 		in.invoke(fn, args, cc, nil)
 	case "after", "pending":
-		in.tasks = append(in.tasks, &task{fn: fn, args: args, call: cc, name: name})
+		in.tasks = append(in.tasks, &task{fn: fn, args: args, call: cc, name: name, after: policy == "after" && in.Cfg.GoPolicy != "after"})
 	case "drop":
 		in.Rep.StubsHit["go-drop:"+name]++
 	default:
@@ -968,11 +979,21 @@ func (in *Interp) spawn(fr *frame, cc *ssa.CallCommon) {
 }
 
 // runOneTask runs one pending task chosen by a fork; returns false when none is pending.
-func (in *Interp) runOneTask() bool {
-	if len(in.tasks) == 0 {
+func (in *Interp) runOneTask() bool { return in.runTask(false) }
+
+// runTask runs one task chosen by a fork. Tasks marked "after" (consumers that must wait for their
+// producer) are only eligible when draining (WaitGroup.Wait / end of the harness).
+func (in *Interp) runTask(includeAfter bool) bool {
+	var idx []int
+	for i, t := range in.tasks {
+		if includeAfter || !t.after {
+			idx = append(idx, i)
+		}
+	}
+	if len(idx) == 0 {
 		return false
 	}
-	k := in.choose(len(in.tasks))
+	k := idx[in.choose(len(idx))]
 	t := in.tasks[k]
 	in.tasks = append(append([]*task(nil), in.tasks[:k]...), in.tasks[k+1:]...)
 	in.invoke(t.fn, t.args, t.call, nil)
@@ -980,7 +1001,9 @@ func (in *Interp) runOneTask() bool {
 }
 
 func (in *Interp) drainTasks() {
-	for in.runOneTask() {
+	for in.runTask(false) {
+	}
+	for in.runTask(true) {
 	}
 }
 
